@@ -233,6 +233,7 @@ theorem bal_cmd (fuel : Nat) (ih : Bal fuel) : ∀ s c, (execCmd (fuel+1) s c).1
   | exit n => simp [execCmd]
   | setE on => simp [execCmd]
   | setM on => simp [execCmd]
+  | setP on => simp [execCmd]
   | unknown => simp [execCmd]
   | absent w r a => simp [execCmd]
   | tick c k => simp only [execCmd]; split <;> simp
